@@ -2,7 +2,7 @@
 
 use super::makers::*;
 use super::Outcome;
-use crate::evidence::{Ctx, EvidenceKeys, Tier};
+use crate::evidence::{Ctx, EvidenceKeys};
 use crate::histories::{self, Maker, Stats};
 use crate::jitter_env;
 use crate::ops::Op;
